@@ -10,9 +10,15 @@ save ∘ load : helper lemmas for composing the writer theorems (C03/C04) with t
  2. `ImageOk` — the numeric facts `C02.WellFormedImage` asks of an image, stated on the saved object
     (tables and ranges inside the file, entry sizes, no wrap-around, name table terminated), and
     `wellFormed_of_holds : Holds → ImageOk → WellFormedImage img`.
- 3. writer side — `imageOk_of_save…` : `ImageOk` for the object left by a successful `save`, from
-    `C04.file_covers`, `C04.layout_disjoint`, the loose-section pass and (flat segments)
-    `layoutSegment_flat`.
+ 2b. `load_state` (what `C02.load_eq_spec` does not say about the loader's state: addresses count as
+    set, resident data = file range ++ NUL), `reload_of_holds` (`Holds` + `ImageOk` ⇒ `load` succeeds and
+    the result is `Reloaded`), `loaded_of_wellFormed` (C05's `Loaded` for every well-formed image).
+ 3. writer side — `saved_header`, `saved_fieldsFit`, `saved_indices`, `saved_loose_offset`,
+    `applyWrites_length_le`, `imageOk_of_save` : `ImageOk` for the object left by a successful `save`,
+    from `C04.file_covers`, `C04.layout_disjoint`, the loose-section pass; `segInside_flat`,
+    `savedSane_noseg`, `savedSane_flat` (`layoutSegment_flat`).
+ 4. save ∘ load ∘ save without segments — `OutRel`, `looseSpec_congr`, `saveTail_os_congr`,
+    `preRes_outRel`.
 -/
 import ElfioVerif.Props.C03
 import ElfioVerif.Props.C04
@@ -1286,5 +1292,247 @@ theorem loaded_of_wellFormed (img : Bytes) (o2 : Obj) (k : StreamKind) (htr : o2
       unfold phBase eh; rw [Nat.mul_comm]
     simp only [hbase]
     exact ⟨q1, q2, q4, q5, q7, q8⟩
+
+/-! ### 4. save ∘ load ∘ save without segments : the write phase reads a section only through its
+header fields, its `written` condition and the bytes it writes -/
+
+/-- `x` and `y` are written alike by `save_sections` -/
+structure OutRel (x y : SecBuf) : Prop where
+  settledX : x.Settled
+  settledY : y.Settled
+  index : x.index = y.index
+  nameOff : x.nameOff = y.nameOff
+  stype : x.stype = y.stype
+  flags : x.flags = y.flags
+  addr : x.addr = y.addr
+  offset : x.offset = y.offset
+  size : x.size = y.size
+  link : x.link = y.link
+  info : x.info = y.info
+  addrAlign : x.addrAlign = y.addrAlign
+  entSize : x.entSize = y.entSize
+  written : secWritten x = secWritten y
+  data : secWritten y = true → (x.data.getD []).take x.size.toNat = (y.data.getD []).take y.size.toNat
+
+theorem OutRel.setOffset {x y : SecBuf} (h : OutRel x y) (c : Cls) (p : BitVec 64) :
+    OutRel (setOffset c x p) (setOffset c y p) := by
+  have hi : (x.index != 0) = (y.index != 0) := by rw [h.index]
+  unfold ElfioVerif.setOffset
+  rw [hi]
+  split
+  · exact ⟨h.settledX, h.settledY, h.index, h.nameOff, h.stype, h.flags, h.addr, rfl, h.size, h.link, h.info,
+      h.addrAlign, h.entSize, h.written, h.data⟩
+  · exact h
+
+theorem looseSpec_congr (c : Cls) (segs : List Seg) {lx ly : List SecBuf} (h : All2 OutRel lx ly) (i : Nat)
+    (pos : BitVec 64) :
+    All2 OutRel (Sv.looseSpec c segs lx i pos).1 (Sv.looseSpec c segs ly i pos).1 ∧
+    (Sv.looseSpec c segs lx i pos).2 = (Sv.looseSpec c segs ly i pos).2 := by
+  induction h generalizing i pos with
+  | nil => exact ⟨.nil, rfl⟩
+  | @cons x y lx ly hxy _ ih =>
+    by_cases hw : withoutSegment segs i = true
+    · rw [Sv.looseSpec_cons_true c segs x lx i pos hw, Sv.looseSpec_cons_true c segs y ly i pos hw]
+      simp only
+      rw [hxy.addrAlign, hxy.stype, hxy.size]
+      obtain ⟨i1, i2⟩ := ih (i + 1) (if lsws_occupies y.stype then
+        wsd_advance (if lsws_need_align y.addrAlign pos then lsws_aligned pos y.addrAlign else pos) y.size
+        else (if lsws_need_align y.addrAlign pos then lsws_aligned pos y.addrAlign else pos))
+      exact ⟨.cons (hxy.setOffset c _) i1, i2⟩
+    · rw [Sv.looseSpec_cons_false c segs x lx i pos hw, Sv.looseSpec_cons_false c segs y ly i pos hw]
+      obtain ⟨i1, i2⟩ := ih (i + 1) pos
+      exact ⟨.cons hxy i1, i2⟩
+
+theorem saveSection_congr (c : Cls) (enc : Enc) (shoff : BitVec 64) (se : BitVec 16) (os : OStream) {x y : SecBuf}
+    (h : OutRel x y) : saveSection c enc shoff se os x = saveSection c enc shoff se os y := by
+  have henc : encodeShdr c enc x = encodeShdr c enc y := by
+    unfold encodeShdr
+    rw [h.nameOff, h.stype, h.flags, h.addr, h.offset, h.size, h.link, h.info, h.addrAlign, h.entSize]
+  have hw : (x.stype != BitVec.ofNat 32 SHT_NOBITS && x.stype != BitVec.ofNat 32 SHT_NULL && x.size != 0 &&
+      x.data.isSome) = (y.stype != BitVec.ofNat 32 SHT_NOBITS && y.stype != BitVec.ofNat 32 SHT_NULL && y.size != 0 &&
+      y.data.isSome) := h.written
+  unfold saveSection
+  simp only [henc, h.index, hw]
+  split
+  · rename_i hc
+    have := h.data hc
+    rw [h.offset, this]
+  · rfl
+
+theorem foldl_saveSection_congr (c : Cls) (enc : Enc) (shoff : BitVec 64) (se : BitVec 16) {lx ly : List SecBuf}
+    (h : All2 OutRel lx ly) (os : OStream) :
+    lx.foldl (saveSection c enc shoff se) os = ly.foldl (saveSection c enc shoff se) os := by
+  induction h generalizing os with
+  | nil => rfl
+  | cons hxy _ ih => simp only [List.foldl_cons]; rw [saveSection_congr c enc shoff se os hxy]; exact ih _
+
+theorem All2.settled {lx ly : List SecBuf} (h : All2 OutRel lx ly) :
+    (∀ b ∈ lx, b.Settled) ∧ (∀ b ∈ ly, b.Settled) := by
+  induction h with
+  | nil => exact ⟨fun _ hb => (nomatch hb), fun _ hb => (nomatch hb)⟩
+  | cons hxy _ ih =>
+    constructor
+    · intro b hb
+      rcases List.mem_cons.1 hb with rfl | hb
+      · exact hxy.settledX
+      · exact ih.1 b hb
+    · intro b hb
+      rcases List.mem_cons.1 hb with rfl | hb
+      · exact hxy.settledY
+      · exact ih.2 b hb
+
+theorem all2_of_getElem? {α β} {R : α → β → Prop} (lx : List α) (ly : List β) (hlen : lx.length = ly.length)
+    (h : ∀ (i : Nat) x y, lx[i]? = some x → ly[i]? = some y → R x y) : All2 R lx ly := by
+  induction lx generalizing ly with
+  | nil =>
+    cases ly with
+    | nil => exact .nil
+    | cons _ _ => cases hlen
+  | cons x lx ih =>
+    cases ly with
+    | nil => cases hlen
+    | cons y ly =>
+      refine .cons (h 0 x y rfl rfl) (ih ly (by simpa using hlen) ?_)
+      intro i a b ha hb
+      exact h (i + 1) a b (by simpa using ha) (by simpa using hb)
+
+/-- the stream and the result flag of the tail of `save` (no segments) depend on the sections only
+    through `OutRel` -/
+theorem saveTail_os_congr {X Y : Obj} (hc : X.cls = Y.cls) (he : X.enc = Y.enc) (ht : X.trans = Y.trans)
+    (os : OStream) (h0 : Bytes) {layX layY : Layout} (hrel : All2 OutRel layX.secs layY.secs)
+    (hpos : layX.pos = layY.pos) :
+    (saveTail X os h0 [] layX []).os = (saveTail Y os h0 [] layY []).os ∧
+    (saveTail X os h0 [] layX []).ok = (saveTail Y os h0 [] layY []).ok := by
+  unfold saveTail
+  simp only
+  rw [Sv.layoutLoose_eq, Sv.layoutLoose_eq, hc, he, hpos]
+  obtain ⟨l1, l2⟩ := looseSpec_congr Y.cls (putBack [] []) hrel 0 layY.pos
+  simp only [List.reverse_nil, List.nil_append]
+  rw [l2]
+  obtain ⟨sx, sy⟩ := All2.settled l1
+  unfold saveWrite
+  simp only [hc, he, ht]
+  rw [residentForSave_id _ _ _ _ _ sx, residentForSave_id _ _ _ _ _ sy]
+  simp only [List.reverse_nil, List.nil_append]
+  rw [foldl_saveSection_congr _ _ _ _ l1]
+  constructor
+  · simp only [apply_ite SaveRes.os]
+  · simp only [apply_ite SaveRes.ok]
+
+theorem allResident_elem (c : Cls) (tr : List Trans) (l : List SecBuf) (ls : LoadSt) (acc : List SecBuf)
+    (i : Nat) (a : SecBuf) (ha : l[i]? = some a) :
+    ∃ ls', ls'.st.data = ls.st.data ∧
+      (allResident c tr l ls acc).1[acc.length + i]? = some (secGetData c tr ls' a).2 := by
+  induction l generalizing ls acc i with
+  | nil => cases ha
+  | cons b rest ih =>
+    unfold allResident
+    cases i with
+    | zero =>
+      simp only [List.getElem?_cons_zero, Option.some.injEq] at ha
+      subst ha
+      refine ⟨ls, rfl, ?_⟩
+      simp only
+      obtain ⟨l', e, _⟩ := allResident_frame c tr rest (secGetData c tr ls b).1 ((secGetData c tr ls b).2 :: acc)
+      rw [e]; simp
+    | succ j =>
+      simp only [List.getElem?_cons_succ] at ha
+      obtain ⟨ls', hd, hget⟩ := ih (secGetData c tr ls b).1 ((secGetData c tr ls b).2 :: acc) j ha
+      refine ⟨ls', by rw [hd]; exact secGetData_data c tr ls b, ?_⟩
+      simp only [List.length_cons] at hget
+      rw [← hget]; congr 1; omega
+
+theorem written_of_occ {b : SecBuf} (ho : C02.occupiesFile b.stype.toNat = true) (hz : b.size ≠ 0)
+    (hd : b.data.isSome = true) : secWritten b = true := by
+  obtain ⟨n1, n2⟩ := occupies_ne ho
+  unfold secWritten
+  simp only [Bool.and_eq_true, bne_iff_ne, ne_eq]
+  exact ⟨⟨⟨n1, n2⟩, hz⟩, hd⟩
+
+theorem not_written_of {b : SecBuf} (h : ¬ (C02.occupiesFile b.stype.toNat = true ∧ b.size ≠ 0)) :
+    secWritten b = false := by
+  cases hw : secWritten b with
+  | false => rfl
+  | true =>
+    exfalso; apply h
+    unfold secWritten at hw
+    simp only [Bool.and_eq_true, bne_iff_ne, ne_eq] at hw
+    exact ⟨occ_occupies ⟨hw.1.1.1, hw.1.1.2, hw.1.2⟩, hw.1.2⟩
+
+/-- the sections of a reloaded object, made resident, are written like the saved object's -/
+theorem preRes_outRel {c : Cls} {enc : Enc} {h : Bytes} {img : Bytes} {isLazy : Bool} {X Y : Obj}
+    (R : Reloaded c enc h Y.secs Y.segs img isLazy X) (hres : ∀ b ∈ Y.secs, ResidentFull b) :
+    All2 OutRel (preRes X).secs (preRes Y).secs := by
+  have fX := preRes_frame X
+  have fY := preRes_frame Y
+  apply all2_of_getElem? _ _ (by rw [fX.1, fY.1]; exact R.nsec)
+  intro i x' y' hx' hy'
+  have hiX : i < X.secs.length := by rw [← fX.1]; exact getElem?_lt hx'
+  have hiY : i < Y.secs.length := by rw [← fY.1]; exact getElem?_lt hy'
+  have hb2 := List.getElem?_eq_getElem hiX
+  have hb := List.getElem?_eq_getElem hiY
+  obtain ⟨sa, -, hdat⟩ := R.sec i _ _ hb hb2
+  obtain ⟨-, hreq⟩ := hdat (hres _ (List.getElem_mem hiY))
+  -- x' is `get_data()` of the reloaded section on a stream over the image
+  obtain ⟨ls', hls, hget⟩ := allResident_elem X.cls X.trans X.secs { st := X.stream } [] i _ hb2
+  simp only [List.length_nil, Nat.zero_add] at hget
+  have ex : x' = (secGetData X.cls X.trans ls' X.secs[i]).2 := by
+    have : (preRes X).secs[i]? = some (secGetData X.cls X.trans ls' X.secs[i]).2 := hget
+    rw [hx'] at this; exact Option.some.inj this
+  rw [R.clsEq, R.trans] at ex
+  have hview := hreq ls' (by rw [hls]; exact R.stream.1)
+  rw [← ex] at hview
+  have rx : ResFrame X.secs[i] x' := by rw [ex]; exact (secGetData_frame c [] ls' _).1
+  have ry : ResFrame Y.secs[i] y' := fY.2 i _ _ hb hy'
+  have ex' := rx.rest
+  have ey' := ry.rest
+  have sX : x'.Settled := by rw [ex]; exact secGetData_settled c [] ls' _
+  have sY : y'.Settled := by
+    have := allResident_settled Y.cls Y.trans Y.secs { st := Y.stream } [] (fun b hb => nomatch hb)
+    exact this y' (List.mem_of_getElem? hy')
+  -- header fields
+  have f1 : x'.index = y'.index := by rw [ex', ey']; exact sa.index
+  have f2 : x'.nameOff = y'.nameOff := by rw [ex', ey']; exact sa.nameOff
+  have f3 : x'.stype = y'.stype := by rw [ex', ey']; exact sa.stype
+  have f4 : x'.flags = y'.flags := by rw [ex', ey']; exact sa.flags
+  have f5 : x'.addr = y'.addr := by rw [ex', ey']; exact sa.addr
+  have f6 : x'.offset = y'.offset := by rw [ex', ey']; exact sa.offset
+  have f7 : x'.size = y'.size := by rw [ex', ey']; exact sa.size
+  have f8 : x'.link = y'.link := by rw [ex', ey']; exact sa.link
+  have f9 : x'.info = y'.info := by rw [ex', ey']; exact sa.info
+  have f10 : x'.addrAlign = y'.addrAlign := by rw [ex', ey']; exact sa.addrAlign
+  have f11 : x'.entSize = y'.entSize := by rw [ex', ey']; exact sa.entSize
+  have eyt : y'.stype = (Y.secs[i]).stype := by rw [ey']
+  have eys : y'.size = (Y.secs[i]).size := by rw [ey']
+  by_cases hocc : C02.occupiesFile (Y.secs[i]).stype.toNat = true ∧ (Y.secs[i]).size ≠ 0
+  · obtain ⟨ho, hz⟩ := hocc
+    obtain ⟨hdsome, hdl⟩ := hres _ (List.getElem_mem hiY) ho hz
+    have ydat : y'.data = (Y.secs[i]).data := (ry.dataSome hdsome).1
+    have hfb : fileBytesOf Y.secs[i] = (Y.secs[i]).view := by unfold fileBytesOf; rw [if_pos ho]
+    have hvy : y'.view = (Y.secs[i]).view := by simp only [SecBuf.view, ydat, eys]
+    have hvlen : (Y.secs[i]).view.length = (Y.secs[i]).size.toNat := by
+      simp only [SecBuf.view, List.length_take]; omega
+    have hxsome : x'.data.isSome = true := by
+      cases hxd : x'.data with
+      | some d => rfl
+      | none =>
+        exfalso
+        rw [hfb] at hview
+        have := congrArg List.length hview
+        simp only [SecBuf.view, hxd, Option.getD_none, List.take_nil, List.length_nil] at this
+        have hz' : (Y.secs[i]).size.toNat ≠ 0 := by
+          intro e; apply hz; exact BitVec.eq_of_toNat_eq (by rw [e]; rfl)
+        simp only [SecBuf.view] at hvlen
+        omega
+    have wy : secWritten y' = true := written_of_occ (by rw [eyt]; exact ho) (by rw [eys]; exact hz)
+      (by rw [ydat]; exact hdsome)
+    have wx : secWritten x' = true := written_of_occ (by rw [f3, eyt]; exact ho) (by rw [f7, eys]; exact hz) hxsome
+    refine ⟨sX, sY, f1, f2, f3, f4, f5, f6, f7, f8, f9, f10, f11, by rw [wx, wy], fun _ => ?_⟩
+    have : x'.view = y'.view := by rw [hview, hfb, hvy]
+    exact this
+  · have wy : secWritten y' = false := not_written_of (by rw [eyt, eys]; exact hocc)
+    have wx : secWritten x' = false := not_written_of (by rw [f3, f7, eyt, eys]; exact hocc)
+    refine ⟨sX, sY, f1, f2, f3, f4, f5, f6, f7, f8, f9, f10, f11, by rw [wx, wy], fun hw => ?_⟩
+    rw [wy] at hw; cases hw
 
 end ElfioVerif.RoundTrip
